@@ -269,9 +269,25 @@ func genCase(t *rapid.T) Case {
 				Augments: []*sg.Augment{{Target: "shch/shcs", Kids: []*sg.Node{{Kind: "leaf", Name: "incase", Type: str}}}}}}})
 		m0.Augments = append(m0.Augments, &sg.Augment{Target: "/" + m0.Prefix + ":sha/" + m0.Prefix + ":shc", Kids: []*sg.Node{{Kind: "leaf", Name: "extra", Type: str}}})
 	}
+	nested := false
+	if m0 := c.Mods[0]; m0.BelongsTo == "" && g.Chance(1, 3, "nestedlists") {
+		// a list below the entries of another list, asked about under several outer entries one after the other with the
+		// same (good or bad) inner key: every answer is about the path that was asked
+		nested = true
+		str := &sg.TypeSpec{Name: "string"}
+		m0.Nodes = append(m0.Nodes, &sg.Node{Kind: "container", Name: "zn-top", Kids: []*sg.Node{{Kind: "list", Name: "zsite", Key: "name", Kids: []*sg.Node{
+			{Kind: "leaf", Name: "name", Type: str},
+			{Kind: "list", Name: "zport", Key: "num", Kids: []*sg.Node{{Kind: "leaf", Name: "num", Type: &sg.TypeSpec{Name: "uint16"}}, {Kind: "leaf", Name: "speed", Type: &sg.TypeSpec{Name: "uint8"}}}}}}}})
+	}
 	w := newWorld(c.Mods)
 	if w == nil {
 		return c
+	}
+	if nested {
+		bad := []string{"99999", "-1", "x", ""}[g.Pick(4, "nestedbad")]
+		c.Paths = append(c.Paths, []string{"zn-top", "zsite", "a", "zport", bad}, []string{"zn-top", "zsite", "b", "zport", bad}, []string{"zn-top", "zsite", "b", "zport", bad, "speed", "1"},
+			[]string{"zn-top", "zsite", "c", "zport", "80"}, []string{"zn-top", "zsite", "d", "zport", "80", "speed", "300"}, []string{"zn-top", "zsite", "e", "zport", "80", "speed", "300"},
+			[]string{"zn-top", "zsite", "a", "zport", bad}, []string{"zn-top", "zsite", "f", "zport", "80", "nosuch"}, []string{"zn-top", "zsite", "g", "zport", "80", "nosuch"})
 	}
 	if shared {
 		c.Paths = append(c.Paths, []string{"sha", "shc", "extra", "v"}, []string{"shb", "shc", "extra", "v"}, []string{"sha", "shp"}, []string{"shb", "shp"},
